@@ -121,7 +121,9 @@ LEAF_GRID = ["Dense", "Toeplitz", "Diag", "ConstantDiag", "Identity", "KronDiag"
              "ConstantMul", "BatchRepeat", "Mul", "DenseSpec", "AddedDiagSpec", "SumSpec"]
 STRUCT_GRID = ["PsdSum", "BlockDiag", "BlockInterleaved", "SumBatch", "Interpolated", "InterpolatedPerm", "InterpolatedAsym",
                "BlockDiag(PsdSum)", "PsdSum(BlockDiag,Interpolated)", "Interpolated(BlockInterleaved)", "SumBatch(Interpolated)",
-               "Interpolated(PsdSum)", "PsdSum(PsdSum)", "BlockInterleaved(SumBatch)"]
+               "Interpolated(PsdSum)", "PsdSum(PsdSum)", "BlockInterleaved(SumBatch)",
+               # outside the modelled fragment (direct predicate only): block_dim != -3, broadcasting batch shapes
+               "BlockDiagDim0", "PsdSumBroadcast"]
 CHILD_ROT = ["Dense", "Diag", "Root", "Identity", "Toeplitz", "ConstantDiag", "Chol", "DenseSpec", "AddedDiag", "LowRank"]
 
 
@@ -155,6 +157,16 @@ def gen_struct(rng, cls, batch, n, rot):
         return gen_interp(rng, gen_struct(rng, "PsdSum", batch, 3, rot + 2), batch, n)
     if cls == "PsdSum(PsdSum)":
         return {"cls": "PsdSum", "ops": [gen_struct(rng, "PsdSum", batch, n, rot + 3), leaf(ch(1), batch, n)]}
+    if cls == "BlockDiagDim0":
+        nb = 1 + rot % 3
+        return {"cls": "BlockDiag", "base": leaf(ch(0), [nb] + batch, n), "block_dim": -3 - len(batch)}
+    if cls == "PsdSumBroadcast":
+        b1 = [x if i % 2 == 0 else 1 for i, x in enumerate(batch)]
+        b2 = [x if i % 2 == 1 else 1 for i, x in enumerate(batch)]
+        return {"cls": "PsdSum", "ops": [leaf(ch(0), b1, n), leaf(ch(1), b2, n), leaf("Diag", [], n)]}
+    if cls == "InterpolatedBroadcast":
+        base = leaf(ch(0), batch, 2 + rot % 3)
+        return gen_interp(rng, base, [], n)
     if cls == "BlockInterleaved(SumBatch)":
         sb = {"cls": "SumBatch", "base": leaf(ch(0), batch + [2, 2], n), "block_dim": -3}
         return {"cls": "BlockInterleaved", "base": sb, "block_dim": -3}
@@ -181,12 +193,12 @@ def grid(ctx):
     combos = [(b, k, n) for b in range(len(BATCHES)) for k in KS for n in SIZES]          # 48
     snames = list(SETTINGS)
     if ctx.quick:
-        per = 5
+        per = 3
         idx = 0
         for ci, cls in enumerate(classes):
             for si, sn in enumerate(snames):
                 for j in range(per):
-                    b, k, n = combos[(idx * 7 + j * 17 + ci) % len(combos)]
+                    b, k, n = combos[(idx * 11 + ci * 5) % len(combos)]
                     idx += 1
                     if sn == "ciq" and (M.prod(BATCHES[b]) > 2 or n > 3):
                         b, n = b % 3, min(n, 3)
@@ -318,6 +330,8 @@ def eval_case(case):
             out0, plan = N.run_with(patch, op.zero_mean_mvn_samples, k, None)
             res["plan"] = [list(s) for s, _ in plan]
             res["out_shape"] = [int(x) for x in out0.shape]
+            if out0.dtype != op.dtype:
+                res["fails"].append({"fail": "dtype", "observed": str(out0.dtype), "expected": str(op.dtype)})
             if res["out_shape"] != exp_shape:
                 res["fails"].append({"fail": "shape", "observed": res["out_shape"], "expected": exp_shape})
                 return res
@@ -362,6 +376,9 @@ def eval_case(case):
             any(lf["s"] == "gen" and lf["method"] == "given" and lf["cls"] not in M.CONSTRUCTOR_ROOT and (st[1] < 800 and st[2])
                 for lf in gens)
     scale = max(1.0, float(A.abs().max()))
+    Aq = A.reshape(-1, A.shape[-2], A.shape[-1])
+    offd = Aq - torch.diag_embed(torch.diagonal(Aq, dim1=-2, dim2=-1))
+    res["nontrivial"] = bool(offd.abs().max() > 0) or bool(Aq.shape[0] > 1 and (Aq - Aq[:1]).abs().max() > 0)
     # ---- direct predicate
     B = M.prod(exp_shape[1:-1])
     n = exp_shape[-1]
@@ -482,7 +499,8 @@ def eval_probe(pc):
                     break
                 stack += [x for x, _ in f.next_functions]
             if node_fn is None or not plan:
-                res["notes"].append("probe draw not reached (plan=%r)" % (plan,))
+                res["fails"].append({"fail": "probe-not-reached", "what": "inv_quad_logdet drew no sampler noise / saved no probe vectors",
+                                     "observed": [list(s_) for s_, _ in plan]})
                 return res
             pv, pn = node_fn.probe_vectors.detach(), node_fn.probe_vector_norms.detach()
             plt = op._preconditioner()[1]
@@ -495,7 +513,10 @@ def eval_probe(pc):
             smp, plan2 = N.run_with(patch, plt.zero_mean_mvn_samples, t, zs)
             J, offs = N.jacobian(patch, plt.zero_mean_mvn_samples, t, plan2)
     except Exception as ex:
-        res["notes"].append("probe case raised %s" % repr(ex)[:200])
+        tb = traceback.extract_tb(ex.__traceback__)
+        where = next((f for f in reversed(tb) if "linear_operator" in f.filename), tb[-1])
+        res["fails"].append({"fail": "raises", "exc": type(ex).__name__, "msg": str(ex)[:200],
+                             "where": "%s:%s" % (os.path.basename(where.filename), where.name)})
         return res
     res["plan"] = [list(s_) for s_, _ in plan2]
     res["out_shape"] = [int(x) for x in smp.shape]
@@ -529,11 +550,15 @@ def eval_probe(pc):
                                      "rk": ("given", r, M.flat(L)), "method": "given" if n > 1 else "sqrt"}},
             "r": {"s": "diag", "bs": list(batch), "n": n, "d": M.flat(dd)}}
     st = (False, 0, True)
-    R, unexpl = M.canonical_root(node, st, t, J, offs)
-    if not unexpl <= 1e-9 * scale:
-        res["model_struct_mismatch"] = unexpl
-    res["coq"] = M.coq_case(st, t, node, False, zs, res["plan"], res["out_shape"], M.flat(smp), M.flat(R), M.flat(P.reshape(Bn, n, n)), 1e-9)
-    res["desc"] = "probe:" + M.describe_node(node)
+    try:
+        R, unexpl = M.canonical_root(node, st, t, J, offs)
+        if not unexpl <= 1e-9 * scale:
+            res["model_struct_mismatch"] = unexpl
+        res["coq"] = M.coq_case(st, t, node, False, zs, res["plan"], res["out_shape"], M.flat(smp), M.flat(R), M.flat(P.reshape(Bn, n, n)), 1e-9)
+        res["desc"] = "probe:" + M.describe_node(node)
+    except Exception as ex:
+        res["notes"].append("abstraction failed: %s" % repr(ex)[:200])
+        res["abstraction_error"] = traceback.format_exc()[-600:]
     return res
 
 
@@ -607,7 +632,7 @@ def run(ctx):
     cases = [make_case(ctx.seed, c, i) for i, c in enumerate(cells)]
     gen_err = [c for c in cases if "gen_error" in c]
     cases = [c for c in cases if "gen_error" not in c]
-    for i, (b, n, t) in enumerate(PROBE_CELLS if not ctx.quick else PROBE_CELLS[::2]):
+    for i, (b, n, t) in enumerate(PROBE_CELLS):
         cases.append({"probe": True, "batch": b, "n": n, "t": t, "nseed": random.Random("%s|probe|%d" % (ctx.seed, i)).randrange(1 << 30),
                       "cell": ["probe-vectors", "cg+precond", b, t, n], "st_name": "probe", "st": [False, 0, True], "k": t,
                       "expr": {"cls": "AddedDiag(probe)"}})
@@ -620,9 +645,17 @@ def run(ctx):
         return state["results"]
 
     def on_fail(info):
+        # a proof obligation / the build no longer checks: search the implementation at thorough width
         results = evaluate()
         seen = set()
-        return sum(report(ctx, c, r, seen) for c, r in zip(cases, results)) > 0
+        found = sum(report(ctx, c, r, seen) for c, r in zip(cases, results))
+        if not found and ctx.quick:
+            class _T:
+                quick = False
+            wide = [make_case(ctx.seed, c, i) for i, c in enumerate(grid(_T))]
+            wide = [c for c in wide if "gen_error" not in c][::3]
+            found = sum(report(ctx, c, r, seen) for c, r in zip(wide, run_cases(wide)))
+        return found > 0
 
     ok = common.proof_stage(ctx, on_fail)
     results = evaluate()
@@ -662,6 +695,9 @@ def run(ctx):
                            "observed": {k: r.get(k) for k in ("out_shape", "plan", "cov_err", "desc", "methods")},
                            "correspondence": "coq/C18/Check.v check (model on PrimFloat vs implementation)"}, no_input=True)
     for i, r in enumerate(results):
+        if r.get("abstraction_error") and not r["fails"]:
+            ctx.violation({"kind": "model-implementation-disagreement", "comparison": "the model could not be evaluated on the observed run",
+                           "case": dict(cases[i]), "trace": r["abstraction_error"]}, no_input=True)
         if r.get("model_struct_mismatch") is not None and not r["fails"]:
             ctx.violation({"kind": "model-implementation-disagreement", "comparison": "noise-coordinate structure",
                            "case": dict(cases[i]),
@@ -671,6 +707,8 @@ def run(ctx):
     dist = {}
     for c, r in zip(cases, results):
         if r.get("skip") or "cov_err" not in r:
+            continue
+        if not (r.get("nontrivial") or r.get("probe")):
             continue
         distinct.add((opbuild.describe(c["expr"]), c["st_name"], tuple(r.get("out_shape", [])), c["k"], tuple(map(tuple, r.get("plan", [])))))
         for m_ in r.get("methods", []) or ["(no generic leaf)"]:
@@ -705,6 +743,7 @@ def run(ctx):
         "direct_property_failures": direct,
         "root_accuracy_not_assessed": sum(1 for r in results if any("not assessed" in x for x in r.get("notes", []))),
         "unmodelled": sum(1 for r in results if any(x.startswith("unmodelled") for x in r.get("notes", []))),
+        "abstraction_errors": sum(1 for r in results if r.get("abstraction_error")),
         "leaf_methods": dist,
         "max_cov_err_exact": max([r["cov_err"] for r in evaluated if r.get("cov_tol") == 1e-9 and not r["fails"]] or [0.0]),
         "max_cov_err_approx": max([r["cov_err"] for r in evaluated if r.get("cov_tol") == 1e-3 and not r["fails"]] or [0.0]),
@@ -726,6 +765,26 @@ def replay(rp):
         return 1
     torch.set_num_threads(1)
     r = eval_probe(case) if case.get("probe") else eval_case(case)
+    if r.get("coq"):
+        gen = os.path.join(common.COQ, PROP, "gen")
+        os.makedirs(gen, exist_ok=True)
+        path = os.path.join(gen, "cases_replay_%d.v" % os.getpid())
+        open(path, "w").write(M.shard_src([r["coq"]]))
+        rc, out = common.coqc_file(PROP, path, timeout=300)
+        bad = parse_bad(out) if rc == 0 else None
+        print("model (Coq, PrimFloat) vs implementation:", "agree" if bad == [] else
+              ("could not be evaluated: %s" % out[-300:] if bad is None else "DISAGREE on %s" % [CODES.get(x % 8, x) for x in bad]))
+        for ext in (".v", ".vo", ".vok", ".vos", ".glob"):
+            try:
+                os.remove(path[:-2] + ext)
+            except OSError:
+                pass
+        try:
+            os.remove(os.path.join(gen, "." + os.path.basename(path)[:-2] + ".aux"))
+        except OSError:
+            pass
+        if bad and not r["fails"]:
+            r["fails"].append({"fail": "model-disagreement", "codes": bad})
     print("expr:", opbuild.describe(case["expr"]), "setting:", case["st_name"], "k:", case["k"])
     print("randn shapes:", r.get("plan"), "out shape:", r.get("out_shape"), "cov_err:", r.get("cov_err"))
     print("failures:", json.dumps(r["fails"]))
